@@ -324,7 +324,7 @@ func init() {
 		Prop:  "C04",
 		Level: "fault_enumeration",
 		Rule: "epoch chains: every distinct crash image of every word of length <= d1 (C03 alphabet; bases T (torn tails), S2, E) is (a) recovered, and every crash image of the recovering Open's own op log recovered again (same contents); " +
-			"(b) used as start state for every word of length <= d2 with every crash image inside each operation, reopened and compared with the cumulative acknowledged state +/- the in-flight op; after every recovery segment in-memory size == file length and every segment write is an append at EOF; thorough: a third epoch; distinct_nontrivial = distinct disk images recovered; (c) fault layer: for every operation of {Put(a),Put(b),Delete(a),Compact,Sync,Close} after every 0-/1-letter prefix a transient I/O error is injected at EACH mutating file-system call of the operation, Close of a written handle included (a data write writes nothing, or - second pass, segment padded so that the next record straddles a sector boundary - everything before the last 512-byte-aligned offset inside it); then the process dies / does two more acknowledged Puts and dies / closes and exits: the next Open must succeed and show the acknowledged state with the failed operation applied or not",
+			"(b) used as start state for every word of length <= d2 with every crash image inside each operation, reopened and compared with the cumulative acknowledged state +/- the in-flight op; after every recovery segment in-memory size == file length and every segment write is an append at EOF; thorough: a third epoch; distinct_nontrivial = distinct disk images recovered; (c) fault layer: for every operation of {Put(a),Put(b),Delete(a),Compact,Sync,Close} after every 0-/1-letter prefix a transient I/O error is injected at EACH mutating file-system call of the operation, Close of a written handle included (a data write writes nothing, or - second pass, segment padded so that the next record straddles a sector boundary - everything before the last 512-byte-aligned offset inside it); then the process dies, or does two more acknowledged Puts and dies: the next Open (a recovery) must succeed and show the acknowledged state with the failed operation applied or not (the continuation 'closes cleanly and exits' is judged by C02)",
 		Assumptions:   []string{"process-crash model of the property", "d1/d2/d3 as listed in the notes; recovery results memoised per image content hash"},
 		QuickBudget:   100 * time.Second,
 		ThorBudget:    25 * time.Minute,
@@ -551,15 +551,19 @@ func c04FaultCase(c *explore.Ctx, base *explore.Base, bname, cfg string, pre []e
 		}
 		return nil
 	}
+	// Which continuations are judged depends on the property the check runs for: a process that dies after the failed
+	// call (A) or after further acknowledged writes (C) is C04's business (acknowledged writes survive the recovery); a
+	// process that closes cleanly and exits (B) is a clean restart: C02's. C05/C13 probes and replays judge all three.
+	modeA, modeC, modeB := c.Prop != "C02", c.Prop != "C02", c.Prop != "C04"
 	// (A) the process dies right after the failed call returned
-	if o.Kind != explore.Close || err != nil {
+	if modeA && (o.Kind != explore.Close || err != nil) {
 		if v := judge("the process dies", s.FS.Clone()); v != nil {
 			return false, v
 		}
 	}
 	// (C) the process carries on: two more writes (acknowledged unless they fail too), then it dies. Everything
 	// acknowledged after the failed operation must survive the recovery as well.
-	if o.Kind != explore.Close && s.DB != nil {
+	if modeC && o.Kind != explore.Close && s.DB != nil {
 		s2m0, s2m1 := m0.Clone(), m1.Clone()
 		img0 := s.FS.Clone() // state to come back to for continuation (B)
 		_ = img0
@@ -591,6 +595,12 @@ func c04FaultCase(c *explore.Ctx, base *explore.Base, bname, cfg string, pre []e
 			_ = s.ProtectedClose()
 			return false, nil
 		}
+	}
+	if !modeB {
+		if s.DB != nil && o.Kind != explore.Close {
+			_ = s.ProtectedClose()
+		}
+		return false, nil
 	}
 	// (B) the process closes the database (Close may fail as well) and exits
 	if o.Kind != explore.Close {
